@@ -279,9 +279,121 @@ def misc_check(case, ctx):
     return res
 
 
+# ---- macro table histories: define / undef / redefine / use over names that collide in the table ------------------
+
+_BUCKETS = None
+
+
+def _fnv(name):
+    h = 0x811c9dc5
+    for c in name.encode():
+        h = ((h ^ c) * 0x1000193) & 0xffffffffffffffff
+    return h
+
+
+def collision_buckets():
+    """Groups of >= 6 identifiers whose map.c hash (FNV-1a as written there) agrees in the low 12 bits,
+    i.e. that share a probe chain in every table of capacity 64..4096."""
+    global _BUCKETS
+    if _BUCKETS is None:
+        by = {}
+        for stem in ("q", "LOG_", "cfg", "Tr"):
+            for i in range(60000):
+                n = "%s%d" % (stem, i)
+                by.setdefault(_fnv(n) & 0xfff, []).append(n)
+        _BUCKETS = [v[:8] for k, v in sorted(by.items()) if len(v) >= 6][:400]
+    return _BUCKETS
+
+
+def mhist_cases(draw):
+    nb = len(collision_buckets())
+    ops = st.lists(st.tuples(st.sampled_from(["def", "def", "undef", "use", "use", "fdef", "undef-absent", "grow"]), st.one_of(st.integers(0, 7), st.integers(0, 7), st.integers(0, 23)), st.integers(0, 9999)),
+                   min_size=6, max_size=70)
+    return {"buckets": draw(st.lists(st.integers(0, nb - 1), min_size=3, max_size=3, unique=True)), "ops": draw(ops), "pre": draw(st.sampled_from([0, 0, 20, 90, 300]))}
+
+
+def mhist_check(case, ctx):
+    """A history of #define / #undef / uses; the -E output must show, for every use, the replacement the model holds
+    at that point (or the name itself when it is not defined)."""
+    res = Result()
+    bk = collision_buckets()
+    names = [n for b in case["buckets"] for n in bk[b][:8]]
+    model = {}
+    lines = ["#define PRE%d %d" % (i, i) for i in range(case["pre"])]
+    expect = []
+    grow = 0
+    chain = 0
+    for k, (op, ni, val) in enumerate(case["ops"]):
+        name = names[ni % len(names)]
+        if op == "def":
+            if name in model and model[name] != ("obj", str(val)):
+                lines.append("#undef %s" % name)
+            lines.append("#define %s %d" % (name, val))
+            model[name] = ("obj", str(val))
+        elif op == "fdef":
+            if name in model and model[name] != ("fn", str(val)):
+                lines.append("#undef %s" % name)
+            lines.append("#define %s(x) x %d" % (name, val))
+            model[name] = ("fn", str(val))
+        elif op == "undef":
+            lines.append("#undef %s" % name)
+            if name in model:
+                chain += 1
+            model.pop(name, None)
+        elif op == "undef-absent":
+            absent = [n for n in names if n not in model]
+            if absent:
+                lines.append("#undef %s" % absent[val % len(absent)])
+        elif op == "grow":
+            for j in range(val % 40):
+                grow += 1
+                lines.append("#define GROW%d_%d %d" % (k, j, j))
+        else:
+            m = model.get(name)
+            if m is None:
+                lines.append("U%d %s ;" % (k, name))
+                expect.append(("U%d" % k, [name, ";"]))
+            elif m[0] == "obj":
+                lines.append("U%d %s ;" % (k, name))
+                expect.append(("U%d" % k, [m[1], ";"]))
+            else:
+                lines.append("U%d %s(7) %s ;" % (k, name, name))
+                expect.append(("U%d" % k, ["7", m[1], name, ";"]))
+    # every name once more at the end
+    for j, name in enumerate(names):
+        m = model.get(name)
+        lines.append("E%d %s ;" % (j, name))
+        expect.append(("E%d" % j, [m[1] if m and m[0] == "obj" else name, ";"]))
+    src = "\n".join(lines) + "\n"
+    p = cproc.cc(ctx, src.encode(), "x86_64-sysv", "plain", args=["-E"], timeout=60)
+    res.n = len(expect)
+    res.sample = {"ops": len(case["ops"]), "uses": len(expect), "pre": case["pre"], "head": src[:150]}
+    if p.rc != 0:
+        res.fail = dict(sig="", msg="valid macro history rejected: %s" % p.err.decode(errors="replace")[:200], input=src)
+        return res
+    toks = p.out.decode(errors="replace").split()
+    pos = {}
+    for i, t in enumerate(toks):
+        if re.fullmatch(r"[UE]\d+", t):
+            pos[t] = i
+    for tag, want in expect:
+        i = pos.get(tag)
+        got = toks[i + 1:i + 1 + len(want)] if i is not None else None
+        if got != want:
+            res.fail = dict(sig="", msg="use %s: -E output has %s, the macro table model says %s" % (tag, got, want), input=src)
+            return res
+    live = len(model)
+    if chain >= 1 and live >= 2:
+        res.keys.append(sha(src))
+    res.labels.append("mhist:undefs=%d" % min(chain, 5))
+    res.labels.append("mhist:table>=%d" % (64 if case["pre"] + grow < 20 else 128 if case["pre"] + grow < 60 else 256))
+    return res
+
+
 def sources(ctx):
     return [maptree.replay_source()] + wrap_rc(maptree.map_sources(ctx)) + [
         Source("misc", misc_check, strategy=lambda c: misc_cases(), examples={"quick": 60, "thorough": 2000}),
+        Source("macro-history", mhist_check, strategy=lambda c: st.composite(lambda draw: mhist_cases(draw))(), examples={"quick": 1500, "thorough": 60000}),
         Source("scopes", scope_check, strategy=lambda c: scope_cases(), examples={"quick": 200, "thorough": 5000}),
         Source("scopes-big", scope_check, strategy=lambda c: scope_cases(big=True), examples={"quick": 3, "thorough": 30}),
     ]
